@@ -131,6 +131,15 @@ def run(ctx):
     mf, _ = oracle(pc, po)
     fails += [(len(cases) + len(big) + i, k, w) for i, k, w in mf]
     ctx.evaluations += sum(len(c["ops"]) for c in pc)
+    # deep locations whose reference objects hash equally (found by search among a few hundred thousand): kept apart
+    ccase = {"store": [["c", {"kind": "dict", "items": [["s", 0]]}]], "ops": [["collide", ctx.pick(300000, 1200000)]]}
+    co = mc.run_impl_cases([ccase], opts={"snapshots": False})[0][-1]
+    cres = co.get("collide") or {"pairs": 0, "problems": ["no observation: " + str(co.get("err"))]}
+    ctx.obligations.append(("hash-equal deep locations (found by search on the compiled build) stay distinct definitions",
+                            not cres["problems"], f"{cres['pairs']} colliding pairs, {len(cres['problems'])} failing"))
+    ctx.cov["hash_equal_location_pairs"] = cres["pairs"]
+    if cres["problems"]:
+        fails.append((len(cases) + len(big) + len(mixed), 0, cres["problems"][0]))
     sub = cases[: ctx.pick(100, 1500)]
     seeds = list(range(1, ctx.pick(3, 12)))
     for sd in seeds:
